@@ -238,6 +238,26 @@ func init() {
 		}
 	})
 	// concurrent spawns, aliases and references: identifiers are unique
+	// the node releases a process's name while another name is being registered for the same process; the process
+	// then terminates: neither name may stay behind
+	c06Race("race-unregister-vs-register-other-name", 2, 3, func(w *World) {
+		pid := w.spawnProbe("P1", probeCfg{}, gen.ProcessOptions{})
+		w.Setup("reg-a", func() {
+			if err := w.n.RegisterName("name-a", pid); err != nil {
+				panic(err)
+			}
+		})
+		w.ex.Thread("U", func() { w.n.UnregisterName("name-a") })
+		w.ex.Thread("R", func() { w.n.RegisterName("name-b", pid) })
+		prev := w.Check
+		w.Check = func() {
+			w.Setup("end-p1", func() { w.n.Kill(pid) })
+			w.registryClean()
+			if prev != nil {
+				prev()
+			}
+		}
+	})
 	// a spawn-with-name that loses the name, racing with ordinary spawns: no process id is handed out twice
 	c06Race("race-failed-spawnregister-vs-spawn", 2, 3, func(w *World) {
 		w.Setup("holder", func() {
